@@ -5,7 +5,7 @@ CONSTANTS Deltas, Gaps, Losses
 VARIABLE h
 Knobs == [scen : {"limited"}, side : {"c", "s"}, client : {"plain", "chrome115"}, a : Deltas, b : {0}]
    \cup  [scen : {"sparse"}, side : {"c", "s"}, client : {"plain", "chrome115"}, a : Gaps, b : Gaps]
-   \cup  [scen : {"bulk"}, side : {"c", "s"}, client : {"plain", "chrome115"}, a : Losses, b : {1, 2, 3}]
+   \* (the "bulk" scenario - upload under random loss - is withdrawn: see DESIGN.md 0a, second round)
 Init == h = <<>>
 Next == h = <<>> /\ \E kn \in Knobs : h' = <<kn>>
 Spec == Init /\ [][Next]_h
